@@ -161,11 +161,12 @@ impl PageLockShard {
     }
 
     fn try_cleanup(&self, page_id: PageId, entry: &PageLockEntry) {
+        // Drop the reference under the shard lock: get_or_create also counts under
+        // it, so once the count reaches zero here nobody can revive this entry and
+        // the map slot still refers to it (never to a newer entry for the page).
+        let mut map = self.locks.lock();
         if entry.release() {
-            let mut map = self.locks.lock();
-            if entry.ref_count.load(Ordering::Acquire) == 0 {
-                map.remove(&page_id);
-            }
+            map.remove(&page_id);
         }
     }
 }
